@@ -383,16 +383,30 @@ def rule_exp_combine(ctx):
     )
     tc = "quimb.tensor.tensor_core"
     f = ctx.prog.func(tc, "TensorNetwork.add_tensor_network")
-    s = " ".join(src_of(f.node).split())
-    if "self.exponent = self.exponent + tn.exponent" in s or "self.exponent += tn.exponent" in s:
-        r.ok("TensorNetwork.add_tensor_network", sample={"combine": "self.exponent += tn.exponent"})
+    other = [p_ for p_ in f.posparams if p_ != "self"][0]
+    combined = False
+    for a in ast.walk(f.node):
+        tgt = None
+        if isinstance(a, ast.Assign) and any(src_of(t) == "self.exponent" for t in a.targets):
+            reads = {src_of(x) for x in ast.walk(a.value) if isinstance(x, ast.Attribute) and x.attr == "exponent"}
+            combined |= {"self.exponent", f"{other}.exponent"} <= reads and any(isinstance(x, ast.BinOp) and isinstance(x.op, ast.Add) for x in ast.walk(a.value))
+        if isinstance(a, ast.AugAssign) and src_of(a.target) == "self.exponent" and isinstance(a.op, ast.Add):
+            combined |= any(isinstance(x, ast.Attribute) and src_of(x) == f"{other}.exponent" for x in ast.walk(a.value))
+    if combined:
+        r.ok("TensorNetwork.add_tensor_network", sample={"combine": f"self.exponent + {other}.exponent"})
     else:
         r.bad(Finding("exp-combine", "TensorNetwork.add_tensor_network",
                       "incoming network's exponent is not added to the receiver's",
                       where=f"{f.module.relpath}:{f.lineno}"))
     f = ctx.prog.func(tc, "TensorNetwork._select_tids")
-    s = " ".join(src_of(f.node).split())
-    if "with_exponent" in f.params and "tn.exponent = self.exponent" in s:
+    switched = False
+    for n_ in ast.walk(f.node):
+        if isinstance(n_, ast.If) and any(isinstance(x, ast.Name) and x.id == "with_exponent" for x in ast.walk(n_.test)):
+            for a in n_.body:
+                if isinstance(a, ast.Assign) and any(isinstance(t, ast.Attribute) and t.attr == "exponent" and src_of(t.value) != "self" for t in a.targets) \
+                        and src_of(a.value) == "self.exponent":
+                    switched = True
+    if "with_exponent" in f.params and switched:
         r.ok("TensorNetwork._select_tids", sample={"select": "exponent copied iff with_exponent"})
     else:
         r.bad(Finding("exp-combine", "TensorNetwork._select_tids", "with_exponent switch lost",
